@@ -36,6 +36,7 @@ type c18Case struct {
 		Msg    string `json:"msg"`
 		Cause  int    `json:"cause"`
 		Self   bool   `json:"same_pointer,omitempty"`
+		SameC  bool   `json:"the_wrapped_cause_itself,omitempty"`
 	} `json:"is_target,omitempty"`
 }
 
@@ -70,6 +71,8 @@ func c18Cause(i int) error {
 		return errors.Join(errors.New("first"), c18Sentinel, io.EOF) // a tree of causes (Unwrap() []error)
 	case 9:
 		return fmt.Errorf("relay: %w; and %w", thrift.NewApplicationException(6, "inner app"), fmt.Errorf("deeper: %w", io.EOF))
+	case 10:
+		return foreignExc{4, "a"} // an exception VALUE (comparable): an equal value built elsewhere matches it under errors.Is
 	}
 	return nil
 }
@@ -374,6 +377,8 @@ func c18Is(c *mc.Ctx, k c18Case) {
 		var t error
 		if k.Target.Self {
 			t = pe
+		} else if k.Target.SameC {
+			t = cause // the very error that was wrapped (nil without a cause: skipped below)
 		} else if k.Target.Kind == "cause" {
 			t = c18Cause(k.Target.Cause)
 		} else {
@@ -407,7 +412,7 @@ func c18Run(c *mc.Ctx) {
 			for _, msg := range c18Msgs {
 				causes := []int{0}
 				if kind == "protocol-with-cause" {
-					causes = []int{1, 2, 3, 4, 5, 6, 7, 8, 9}
+					causes = []int{1, 2, 3, 4, 5, 6, 7, 8, 9, 10}
 				}
 				for _, cause := range causes {
 					for _, wrap := range []bool{false, true} {
@@ -426,7 +431,7 @@ func c18Run(c *mc.Ctx) {
 			}
 		}
 	}
-	c.Done("PrependError / NewProtocolExceptionWithErr: 9 error kinds (incl. user types embedding each library exception) x 15 type ids x 4 messages x 9 causes (incl. joined / multi-%w trees) x {bare, wrapped in fmt.Errorf} x 3 prefixes")
+	c.Done("PrependError / NewProtocolExceptionWithErr: 9 error kinds (incl. user types embedding each library exception) x 15 type ids x 4 messages x 10 causes (incl. joined / multi-%w trees) x {bare, wrapped in fmt.Errorf} x 3 prefixes")
 	// errors.Is: all ordered pairs (protocol exception, target)
 	type tgt = struct {
 		Kind   string `json:"kind"`
@@ -434,6 +439,7 @@ func c18Run(c *mc.Ctx) {
 		Msg    string `json:"msg"`
 		Cause  int    `json:"cause"`
 		Self   bool   `json:"same_pointer,omitempty"`
+		SameC  bool   `json:"the_wrapped_cause_itself,omitempty"`
 	}
 	ids := []int32{0, 1, 4, -1}
 	var targets []tgt
@@ -444,11 +450,11 @@ func c18Run(c *mc.Ctx) {
 			}
 		}
 	}
-	for cs := 1; cs <= 9; cs++ {
+	for cs := 1; cs <= 10; cs++ {
 		targets = append(targets, tgt{Kind: "cause", Cause: cs}, tgt{Kind: "protocol-with-cause", Cause: cs})
 	}
 	// default-text targets: an application exception with an empty message reports the default text for its id
-	targets = append(targets, tgt{Kind: "application", TypeID: 1, Msg: "unknown method"}, tgt{Kind: "protocol", TypeID: 1, Msg: "unknown method"}, tgt{Self: true})
+	targets = append(targets, tgt{Kind: "application", TypeID: 1, Msg: "unknown method"}, tgt{Kind: "protocol", TypeID: 1, Msg: "unknown method"}, tgt{Self: true}, tgt{SameC: true})
 	for _, id := range ids {
 		for _, msg := range append(c18Msgs, "unknown method", "sentinel cause", "EOF") {
 			for ti := range targets {
@@ -463,11 +469,12 @@ func c18Run(c *mc.Ctx) {
 					Msg    string `json:"msg"`
 					Cause  int    `json:"cause"`
 					Self   bool   `json:"same_pointer,omitempty"`
+					SameC  bool   `json:"the_wrapped_cause_itself,omitempty"`
 				})(&t)})
 			}
 		}
 	}
-	for cs := 1; cs <= 9; cs++ {
+	for cs := 1; cs <= 10; cs++ {
 		for ti := range targets {
 			if !c.Mine() {
 				continue
@@ -480,6 +487,7 @@ func c18Run(c *mc.Ctx) {
 				Msg    string `json:"msg"`
 				Cause  int    `json:"cause"`
 				Self   bool   `json:"same_pointer,omitempty"`
+				SameC  bool   `json:"the_wrapped_cause_itself,omitempty"`
 			})(&t)})
 		}
 	}
